@@ -64,6 +64,38 @@ func derivedFrom(got, orig Cred, d Desc) string {
 			return fmt.Sprintf("member a%d is not in the holder's credential", a.K)
 		}
 
+		if v.T == "a" && a.V.T == "a" {
+			// an array may come back shorter (limited disclosure keeps the requested elements and closes the gaps) or
+			// with elements replaced by true (predicate on an element): every element shown must be one of the
+			// holder's elements, each used at most once
+			used := make([]bool, len(v.L))
+			predOnElem := false
+
+			for k := range pk {
+				if k >= 1000 && k%1000 == a.K {
+					predOnElem = true
+				}
+			}
+
+			for _, e := range a.V.L {
+				found := false
+
+				for j, x := range v.L {
+					if !used[j] && valEq(x, e) {
+						used[j], found = true, true
+
+						break
+					}
+				}
+
+				if !found && !((predOnElem || pk[a.K]) && e.T == "b" && e.B) {
+					return fmt.Sprintf("member %s shows an element the holder's array does not have", keyPath(a.K))
+				}
+			}
+
+			continue
+		}
+
 		if !valEq(v, a.V) && !(pk[a.K] && a.V.T == "b" && a.V.B) {
 			if a.V.T == "z" {
 				return fmt.Sprintf("member %s is shown as null", keyPath(a.K))
@@ -93,12 +125,34 @@ func readableSatisfies(got Cred, d Desc) string {
 		ok := false
 
 		for _, p := range f.Paths {
+			if p >= 1000 {
+				// an element of an array: limited disclosure closes the gaps, so the element is looked for by value
+				if arr, has := got.get(p % 1000); has && arr.T == "a" {
+					for _, e := range arr.L {
+						if refFilter(f.Filter, e) || (pk[p] && e.T == "b" && e.B) {
+							ok = true
+						}
+					}
+				}
+
+				continue
+			}
+
 			if v, has := got.get(p); has && (refFilter(f.Filter, v) || (pk[p] && v.T == "b" && v.B)) {
 				ok = true
 			}
 		}
 
 		if !ok {
+			only := true
+			for _, p := range f.Paths {
+				only = only && p >= 1000
+			}
+
+			if only {
+				return fmt.Sprintf("field %d (paths %v) is not readable in the credential [array element paths only]", i, f.Paths)
+			}
+
 			return fmt.Sprintf("field %d (paths %v) is not readable in the credential", i, f.Paths)
 		}
 	}
@@ -115,9 +169,22 @@ func limitedOK(got Cred, disclosures int, d Desc) (string, string) {
 
 	rk := requestedKeys(d)
 	for _, a := range got.Attrs {
-		if !rk[a.K] {
+		if rk[a.K] {
+			continue
+		}
+
+		// elements of the array were requested, not the array: no more elements than requested ones may show
+		asked := 0
+
+		for k := range rk {
+			if k >= 1000 && k%1000 == a.K {
+				asked++
+			}
+		}
+
+		if asked == 0 || a.V.T != "a" || len(a.V.L) > asked {
 			return "limit-disclosure-reveals-unrequested-member",
-				fmt.Sprintf("d%d requires limited disclosure of %v but the credential reveals %s", d.ID, rk, keyPath(a.K))
+				fmt.Sprintf("d%d requires limited disclosure of %v but the credential reveals %s (%d requested elements)", d.ID, rk, keyPath(a.K), asked)
 		}
 	}
 
@@ -137,6 +204,27 @@ func hasBBS(c Cred) bool {
 	}
 
 	return false
+}
+
+// notShown: an SD-JWT array is one disclosure; a field that the holder's credential satisfies only through
+// elements of arrays finds nothing to disclose (known finding)
+func notShown(sig string, src Cred, why string, d Desc) string {
+	if !src.SD || d.Cons == nil {
+		return sig
+	}
+
+	var fi int
+	if _, err := fmt.Sscanf(why, "field %d ", &fi); err != nil || fi >= len(d.Cons.Fields) {
+		return sig
+	}
+
+	for _, p := range d.Cons.Fields[fi].Paths {
+		if _, has := src.get(p); has && p < 1000 {
+			return sig
+		}
+	}
+
+	return "holder-presents-credential-not-showing-requested-field/sd-jwt-array-element-path"
 }
 
 // judge is the property's direct oracle on the implementation's behaviour.
@@ -177,6 +265,14 @@ func judge(c Case, o *Obs) (string, string) {
 			return sig, fmt.Sprintf("d%d is mapped to verifiableCredential[%d] = holder credential #%d, which does not satisfy d%d", m.ID, m.Idx, src, m.ID)
 		}
 
+		if c.Creds[src].MapSubject {
+			// the whole subject of such a credential goes into the limited credential (known finding): judged first,
+			// what is then written over the full arrays is part of the same leak
+			if sig, why := limitedOK(o.Creds[m.Idx], o.Disc[m.Idx], d); sig != "" {
+				return sig + "/subject-held-as-map", fmt.Sprintf("verifiableCredential[%d]: %s", m.Idx, why)
+			}
+		}
+
 		if why := derivedFrom(o.Creds[m.Idx], c.Creds[src], d); why != "" {
 			sig := "holder-alters-credential"
 			if hasBBS(c.Creds[src]) && strings.HasSuffix(why, "is shown as null") {
@@ -187,7 +283,7 @@ func judge(c Case, o *Obs) (string, string) {
 		}
 
 		if why := readableSatisfies(o.Creds[m.Idx], d); why != "" {
-			return "holder-presents-credential-not-showing-requested-field", fmt.Sprintf("d%d -> [%d]: %s", m.ID, m.Idx, why)
+			return notShown("holder-presents-credential-not-showing-requested-field", c.Creds[src], why, d), fmt.Sprintf("d%d -> [%d]: %s", m.ID, m.Idx, why)
 		}
 
 		if sig, why := limitedOK(o.Creds[m.Idx], o.Disc[m.Idx], d); sig != "" {
@@ -238,12 +334,18 @@ func judge(c Case, o *Obs) (string, string) {
 			return sig, fmt.Sprintf("Match returns holder credential #%d for d%d, which does not satisfy it", src, m.ID)
 		}
 
+		if c.Creds[src].MapSubject {
+			if sig, why := limitedOK(m.Cred, o.MDisc[i], d); sig != "" {
+				return sig + "/subject-held-as-map", "Match: " + why
+			}
+		}
+
 		if why := derivedFrom(m.Cred, c.Creds[src], d); why != "" {
 			return "match-alters-credential", fmt.Sprintf("d%d: %s", m.ID, why)
 		}
 
 		if why := readableSatisfies(m.Cred, d); why != "" {
-			return "match-returns-credential-not-showing-requested-field", fmt.Sprintf("d%d: %s", m.ID, why)
+			return notShown("match-returns-credential-not-showing-requested-field", c.Creds[src], why, d), fmt.Sprintf("d%d: %s", m.ID, why)
 		}
 
 		if sig, why := limitedOK(m.Cred, o.MDisc[i], d); sig != "" {
@@ -323,6 +425,10 @@ func (r *runner) do(kind string, c Case, withCoq bool) {
 
 				c.Creds[i].Attrs = keep
 			}
+		}
+
+		for j := range c.Creds[i].Attrs {
+			c.Creds[i].Attrs[j].V = c.Creds[i].Attrs[j].V.norm()
 		}
 
 		sortAttrs(c.Creds[i].Attrs)
@@ -451,6 +557,9 @@ func (r *runner) doMSR(kind string, c Case, apply bool, withCoq bool) {
 				case !refSatisfies(c.Def, d, c.Creds[src]):
 					rec.Oracle, rec.Sig = "fail", "msr-reports-unsatisfying-credential"
 					rec.Detail = fmt.Sprintf("holder credential #%d is reported under d%d, which it does not satisfy", src, md.ID)
+				case apply && c.Creds[src].MapSubject && func() bool { sg, _ := limitedOK(got, md.Disc[i], d); return sg != "" }():
+					sg, why := limitedOK(got, md.Disc[i], d)
+					rec.Oracle, rec.Sig, rec.Detail = "fail", sg+"/subject-held-as-map", fmt.Sprintf("d%d[%d]: %s", md.ID, i, why)
 				default:
 					if why := derivedFrom(got, c.Creds[src], d); why != "" {
 						rec.Oracle, rec.Sig, rec.Detail = "fail", "msr-alters-credential", fmt.Sprintf("d%d[%d]: %s", md.ID, i, why)
@@ -467,7 +576,7 @@ func (r *runner) doMSR(kind string, c Case, apply bool, withCoq bool) {
 
 							rec.Oracle, rec.Sig, rec.Detail = "fail", sg, fmt.Sprintf("d%d[%d]: %s", md.ID, i, why)
 						} else if why := readableSatisfies(got, d); why != "" {
-							rec.Oracle, rec.Sig, rec.Detail = "fail", "msr-credential-not-showing-requested-field", fmt.Sprintf("d%d[%d]: %s", md.ID, i, why)
+							rec.Oracle, rec.Sig, rec.Detail = "fail", notShown("msr-credential-not-showing-requested-field", c.Creds[src], why, d), fmt.Sprintf("d%d[%d]: %s", md.ID, i, why)
 						}
 					}
 				}
